@@ -27,6 +27,10 @@ type graph struct {
 	// successThresholdSinks specifies how many sinks must successfully process
 	// an event for Process to not return an error.
 	successThresholdSinks int
+
+	// thresholdLock guards successThreshold and successThresholdSinks, which
+	// can be set while events are being processed.
+	thresholdLock sync.RWMutex
 }
 
 // Process the Event by routing it through all of the graph's nodes,
@@ -77,7 +81,10 @@ func (g *graph) process(ctx context.Context, e *Event) (Status, error) {
 		}
 	}
 	verifPoint(ctx, "process.return", "")
-	return status, status.getError(ctx.Err(), g.successThreshold, g.successThresholdSinks)
+	g.thresholdLock.RLock()
+	threshold, thresholdSinks := g.successThreshold, g.successThresholdSinks
+	g.thresholdLock.RUnlock()
+	return status, status.getError(ctx.Err(), threshold, thresholdSinks)
 }
 
 // Recursively process every node in the graph.
